@@ -81,7 +81,7 @@ def serial(kinds, params, source, sink_cyc, horizon, script=(), pools=None):
     devs = [source]
     for i, (k, p) in enumerate(zip(kinds, params)):
         devs.append(dev(k, [i + 1], **p))
-    devs.append(dev('sink', [len(devs)], cyc=sink_cyc))
+    devs.append(dev('sink', [len(devs)], cyc=sink_cyc, vadd=(1 if sink_cyc == 3 else 0)))
     return norm(dict(devs=devs, script=list(script), horizon=horizon, pools=pools or {}))
 
 
@@ -420,7 +420,7 @@ def gen_batch(rng, count=60):
                 devs.append(dev('processor', up, cyc=rng.choice([5, 7, 9])))
         if bsrc == 0 and devs[1]['kind'] != 'batcher':
             continue
-        devs.append(dev('sink', [len(devs)], cyc=rng.choice([0, 0, 1, 3])))
+        devs.append(dev('sink', [len(devs)], cyc=rng.choice([0, 0, 1, 3]), vadd=rng.choice([0, 0, 2])))
         script = []
         if rng.random() < 0.4:
             tgt = rng.choice([d for d in range(2, len(devs) + 1)])
